@@ -262,6 +262,38 @@ def multi_call(ck, paths):
     common.pmap(one, batches, workers=8)
 
 
+def concurrent_callers(ck, paths):
+    """certified cases (default penalties) aligned by 4..12 application threads calling kalign() at the same time, each with its own arrays: every
+    caller must get the certified optimum (guard-off -O2 build: the hook runtime keeps one run context)"""
+    pool = [c for c in getattr(ck, "certified_pool", []) if c[2] is None and c[3] is None and c[4] is None]
+    rng = ck.rng.__class__(ck.seed * 11 + 5)
+    rng.shuffle(pool)
+
+    def one(case):
+        recs, ty, _, _, _, exp, kind = case
+        sf = ck.tmp(".seqs")
+        common.write_bytes(sf, "".join(s_ + "\n" for _, s_ in recs))
+        P = rng.choice([4, 8, 12])
+        r, l = common.kvdrv(paths, ["parr %s %d %d %d" % (sf, P, rng.choice([1, 1, 2]), ty)] * 3, scratch=ck.scratch, timeout=900, cpu=600)
+        ctx = {"concurrent_callers": P, "kind": kind, "input": recs}
+        if ck.proc_violations(r, ctx, allow_rcs=(0,)):
+            return
+        for pr in [z for z in l if z.get("op") == "parr"]:
+            ck.count("certified_cases_rerun_by_concurrent_callers")
+            names = [n_ for n_, _ in recs]
+            if pr["ok"] != pr["callers"] or not pr["same"] or len(pr["rows"]) != len(recs):
+                ck.violation("certified-optimum-not-returned:concurrent-callers", "%d threads calling kalign() at the same time on a certified %s case: %s" % (
+                    P, kind, "some calls failed" if pr["ok"] != pr["callers"] else "callers got different alignments"), ctx)
+                return
+            rd = dict(zip(names, pr["rows"]))
+            rx, ry = rd["x0"], rd["y0"]
+            keep = [i for i in range(len(rx)) if rx[i] != "-" or ry[i] != "-"]
+            if [(rx[i], ry[i]) for i in keep] != exp:
+                ck.violation("certified-optimum-not-returned:concurrent-callers", "%d threads calling kalign() at the same time on a certified %s case: the alignment returned is not the certified optimum" % (P, kind), ctx)
+                return
+    common.pmap(one, pool[:40 if ck.tier == "quick" else 300], workers=4)
+
+
 def run(ck, tier):
     paths = build("asan")
     tools = build_ref()
@@ -269,11 +301,12 @@ def run(ck, tier):
     n = int((900 if tier == "quick" else 12000) * sc)
     common.pmap(lambda i: run_case(ck, paths, tools, i), range(n), workers=12)
     multi_call(ck, build("rel"))   # glibc malloc: freed objects are reused at once (ASan would quarantine them)
+    concurrent_callers(ck, build("rel", tag="relnohook", guard=False))
     if ck.cov.get("certified", 0) < (200 if tier == "quick" else 2000) * min(1.0, sc):
         ck.note_inconclusive("only %d certified cases" % ck.cov.get("certified", 0))
     ck.rule = ("planted pairwise alignments (random core, 0-20% substitutions, indels of 1..25 separated by >= 12 (sometimes only 3 or 6) conserved columns, terminal overhangs 0..150) for all five "
                "types and user penalties (flat gpo=gpe=tgpe, gpe=tgpe, general), lengths 15..1300 clustered around 480..520, each side 1..3 identical copies, 1/4 threads, shuffled "
-               "record order. A case is judged only if the independent interval bound certifies the planted alignment as the unique optimum under both role assignments with "
+               "record order; certified cases are re-run several in one process and by 4..12 application threads calling kalign() at the same time. A case is judged only if the independent interval bound certifies the planted alignment as the unique optimum under both role assignments with "
                "margin > len/2000 + 1e-3(n+m); uncertified cases are counted and skipped. Non-trivial = certified case.")
     ck.assumptions = ["reference objective and edge weights as validated in DESIGN.md 4/C07 (ref/c07oracle.c)", "matrices and penalties from ref/golden_params.json (checked against the code by C09)"]
 
@@ -281,6 +314,10 @@ def run(ck, tier):
 def replay(ck, doc):
     paths = build("asan")
     tools = build_ref()
+    if "idx" not in doc["replay"]:
+        # multi-call / concurrent-caller stages draw from the pool of certified cases: repeat the tier
+        run(ck, doc.get("tier", "quick"))
+        return
     run_case(ck, paths, tools, doc["replay"]["idx"])
     with ck.lock:
         ck.nontrivial |= set(range(200))
